@@ -214,7 +214,15 @@ var stdInitAllowed = map[string]bool{"unicode/utf8": true}
 
 var sentinelErrors = map[string]string{
 	"io/fs.SkipDir": "skip this directory", "io/fs.SkipAll": "skip everything and stop the walk",
-	"io.EOF": "EOF", "io.ErrUnexpectedEOF": "unexpected EOF",
+	"io.EOF": "EOF", "io.ErrUnexpectedEOF": "unexpected EOF", "io.ErrShortWrite": "short write", "io.ErrShortBuffer": "short buffer",
+	"io.ErrNoProgress": "multiple Read calls return no data or error", "io.ErrClosedPipe": "io: read/write on closed pipe",
+	"io.errInvalidWrite": "invalid write result",
+	"bufio.ErrBufferFull": "bufio: buffer full", "bufio.ErrNegativeCount": "bufio: negative count", "bufio.ErrInvalidUnreadByte": "bufio: invalid use of UnreadByte",
+	"bufio.ErrInvalidUnreadRune": "bufio: invalid use of UnreadRune", "bufio.errNegativeRead": "bufio: reader returned negative count from Read",
+	"bufio.errNegativeWrite": "bufio: writer returned negative count from Write",
+	"bufio.ErrTooLong": "bufio.Scanner: token too long", "bufio.ErrNegativeAdvance": "bufio.Scanner: SplitFunc returns negative advance count",
+	"bufio.ErrAdvanceTooFar": "bufio.Scanner: SplitFunc returns advance count beyond input", "bufio.ErrBadReadCount": "bufio.Scanner: Read returned impossible count",
+	"bufio.ErrFinalToken": "final token",
 	"io/fs.ErrNotExist": "file does not exist", "io/fs.ErrExist": "file already exists", "io/fs.ErrPermission": "permission denied",
 }
 
@@ -1251,7 +1259,25 @@ func (in *Interp) callBuiltin(caller *frame, pos token.Pos, fn *ssa.Builtin, arg
 		panic(engineErr(fmt.Sprintf("cap: %T", args[0])))
 
 	case "min", "max":
-		panic(engineErr("min/max builtin unsupported"))
+		// integers and strings: a chain of comparisons, forking on symbolic ones (floats have NaN rules: not modelled)
+		best := args[0]
+		for _, a := range args[1:] {
+			if _, isF := a.(Float); isF {
+				panic(engineErr("min/max on floats unsupported"))
+			}
+			op := token.LSS
+			if fn.Name() == "max" {
+				op = token.GTR
+			}
+			var t types.Type = types.Typ[types.Int]
+			if _, isS := a.(Str); isS {
+				t = types.Typ[types.String]
+			}
+			if in.brVal(in.binop(op, t, a, best).(Bool)) {
+				best = a
+			}
+		}
+		return best
 
 	case "recover":
 		return in.doRecover(caller)
